@@ -12,7 +12,7 @@ RULE = ('lu and plu on: ALL 2x2 matrices with entries -3..3 (2401), 3x3 with ent
         'random n<=10 by class: dense floats, small integers, zero leading minor (a11=0, integer L*U with a zero pivot, dyadic row multiples '
         'inside a leading block), permutation-heavy (shuffled / cyclically shifted rows of a diagonally dominant matrix, scaled permutation '
         'matrices), rows scaled by 2^-30..2^30, rank-deficient (zero row, zero column, repeated row, scaled row, sum of rows, singular with '
-        'entries -2..2), exactly singular integer matrices with entries -2..2 and n>=4, whole matrices scaled by 2^-60..2^60, 1x1 and 0x0; malformed: non-square h x w, ragged nested vectors.  Every case goes through every accepted container '
+        'entries -2..2), exactly singular integer matrices with entries -2..2 and n>=4, whole matrices scaled by 2^-60..2^60, threshold_window (smallest pivot at c*eps*max|a|, c in (1/4, 4n), on both sides of and exactly at c = 1 and c = n: pins the threshold formula eps*n*max|a| and the <= through the correspondence), 1x1 and 0x0; malformed: non-square h x w, ragged nested vectors.  Every case goes through every accepted container '
         'type that can hold its numbers (&Arr2D<f64>, Vec<Vec<f64>>, &Vec<Vec<f64>>, and for integers &Arr2D<i32>, &Vec<Vec<i32>>); the harness '
         'reports any difference between them.  distinct = distinct case line; non-trivial = square with n >= 2')
 TRUSTED = ['extraction of the float instance (ExtrOcamlBasic, ExtrOCamlFloats, ExtrOCamlInt63) and ocaml/c09.ml',
@@ -585,6 +585,56 @@ def singular_int(rng, n):
             return m
 
 
+def threshold_window(rng, n, c, k, exact):
+    """a non-singular matrix whose pivot number k under partial pivoting is c * eps * max|a| (the code's threshold is
+    n * eps * max|a|).  A = P^T L U with L unit lower, |l_ij| <= 1/2 (so partial pivoting undoes P and reproduces L, U),
+    U with diagonal +-1 / +-2 except u_kk = p.  exact=True: dyadic entries with few bits and a zero column above u_kk, so
+    A, every elimination step and the threshold are exact in binary64 and the computed pivot/threshold ratio is exactly
+    c/n; exact=False: dense U, A rounded from exact rationals, the computed pivot lands near c*eps*max|a|."""
+    half = [Fraction(0), Fraction(1, 2), Fraction(-1, 2), Fraction(1, 4), Fraction(-1, 4)]
+    L = [[Fraction(int(i == j)) for j in range(n)] for i in range(n)]
+    U = [[Fraction(0)] * n for _ in range(n)]
+    for i in range(n):
+        for j in range(i):
+            L[i][j] = rng.choice(half) if exact else Fraction(rng.randint(-512, 512), 1024)
+        U[i][i] = Fraction(rng.choice([1, -1, 2, -2]))
+        for j in range(i + 1, n):
+            U[i][j] = Fraction(rng.choice([0, 1, -1, 2, -2, 1, -1])) / rng.choice([1, 2]) if exact else Fraction(rng.randint(-2048, 2048), 1024)
+    if exact:
+        for t in range(k):
+            U[t][k] = Fraction(0)
+    sig = list(range(n))
+    rng.shuffle(sig)
+    sh = 2 ** rng.choice([0, 0, 0, -20, 20, 7, -3])
+
+    def build(p):
+        U[k][k] = p
+        M = [[sum(L[i][t] * U[t][j] for t in range(min(i, j) + 1)) * sh for j in range(n)] for i in range(n)]
+        return [M[sig[i]] for i in range(n)]
+    scale = max(abs(x) for r in build(Fraction(0)) for x in r)
+    p = Fraction(c) * Fraction(1, 2 ** 52) * scale * rng.choice([1, -1]) / sh
+    A = build(p)
+    rows = [[float(x) for x in r] for r in A]
+    if exact:
+        assert all(Fraction(rows[i][j]) == A[i][j] for i in range(n) for j in range(n))
+    return rows
+
+
+def threshold_window_cases(rng, count):
+    out = []
+    for q in range(count):
+        n = 2 + q % 9
+        exact = q % 3 != 2
+        k = n - 1 if q % 2 == 0 else rng.randrange(0, n)
+        cs = [Fraction(1, 4), Fraction(1, 2), Fraction(3, 4), 1 - Fraction(1, 2 ** 20), Fraction(1), 1 + Fraction(1, 2 ** 20),
+              Fraction(5, 4), Fraction(n, 2), Fraction(n) - Fraction(1, 4), n * (1 - Fraction(1, 2 ** 20)), Fraction(n),
+              n * (1 + Fraction(1, 2 ** 20)), Fraction(n) + Fraction(1, 4), Fraction(2 * n), Fraction(4 * n) - Fraction(1, 2),
+              Fraction(n + 1, 2), Fraction(3 * n, 4)]
+        c = cs[q % len(cs)] if q < 2 * len(cs) else Fraction(rng.randint(1, 16 * n), 4)
+        out.append(threshold_window(rng, n, c, k, exact))
+    return out
+
+
 def gen(rng, tier):
     quick = tier == 'quick'
     # exhaustive 2x2, entries -3..3
@@ -600,6 +650,8 @@ def gen(rng, tier):
             rows = [list(e[0:3]), list(e[3:6]), list(e[6:9])]
             yield from both(rows, 'ex3x3')
     k = 1 if quick else 25
+    for m in threshold_window_cases(rng, 44 if quick else 600):
+        yield mk('plu', m, 'threshold_window')
     # the fixed witness of the known finding F21 (keeps the KNOWN-FINDING line stable)
     yield from both(F21_WITNESS, 'f21witness')
     # edge sizes
@@ -655,3 +707,38 @@ def gen(rng, tier):
         rows = rnd_int(rng, n, 3)
         yield ragged('lurag', rows, 'nested')
         yield ragged('plurag', rows, 'nested')
+
+
+# ---- extraction cross-check: the same cases evaluated inside Coq by vm_compute
+from tools import xenc
+COQ_IMPORTS = 'Base.XEnc Base.Mat Model.LU'
+XCHECK_N = 200
+# Ok -> 0 :: n :: entries of L, U (, P) row-major, read back through lists_of_mat exactly as the driver does
+_X_MATS = '(fun n ms => Z.of_nat n :: flat_map (fun m => map float_bits (concat (@lists_of_mat float n n m))) ms)'
+
+
+def coq_term(case):
+    t = xenc.Toks(case.line)
+    cmd = t.word()
+    if cmd in ('lu', 'plu'):
+        h, w, rows = t.fmat()
+        n = h
+    elif cmd in ('lurag', 'plurag'):
+        rows = [t.fvec() for _ in range(t.int())]
+        n = len(rows)
+    else:
+        return None
+    # crc thinning below XCHECK_N (every eligible case is then taken); functional matrices are slow under
+    # vm_compute, so the larger sizes are thinned harder
+    if not xenc.keep(case, 250 if n <= 3 else 22 if n <= 6 else 60):
+        return None
+    pick = '[fst r; snd r]' if cmd.startswith('lu') else '[fst (fst r); snd (fst r); snd r]'
+    if cmd in ('lu', 'plu'):
+        return ('enc_res (fun r => %s %d%%nat %s) (@%s float FNum %d%%nat %d%%nat (@mat_of_lists float FNum %s))'
+                % (_X_MATS, h, pick, cmd, h, w, xenc.cq_fmat(rows)))
+    return ('enc_res (fun nr => let r := snd nr in %s (fst nr) %s) (@%s_rows float FNum %s)'
+            % (_X_MATS, pick, cmd[:-3], xenc.cq_fmat(rows)))
+
+
+def encode_result(case, model_line):
+    return xenc.enc_line(model_line, lambda t: [int(t[0])] + [xenc.float_tok_bits(x) for x in t[1:]])
